@@ -99,6 +99,19 @@ class C06(PropBase):
                 # equal value seen earlier"
                 vals += [tw for tw in (hist.value_twin(rng, x, numeric=False) for x in list(vals)) if tw is not None]
             pool.append((t, vals))
+        if rng.random() < 0.15:
+            # temporals carrying a rule-based zone (zoneinfo): their offset depends on a date - for a bare
+            # time there is none - so nothing that is written for them may depend on *today*
+            zn = rng.choice(["Europe/Berlin", "America/New_York", "Australia/Lord_Howe", "Pacific/Chatham"])
+            tv = {"$t": [rng.randint(0, 23), rng.randint(0, 59), rng.randint(0, 59), rng.choice([0, 250000]), zn]}
+            tt = {"k": "time"}
+            shape = rng.choice(["root", "list", "dict"])
+            if shape == "list":
+                tt, tv = {"k": "list", "a": tt}, {"$list": [tv]}
+            elif shape == "dict":
+                tt, tv = {"k": "dict", "a": [{"k": "str"}, tt]}, {"$dict": [["opens", tv]]}
+            pool.append((tt, [tv]))
+            pool.append(pool[-1])
         # (the cold comparison below would otherwise re-find the union-order alias that C08/C12 record)
         gen.one_order_per_member_set(world, [t for t, _ in pool])
         steps = []
@@ -137,6 +150,9 @@ class C06(PropBase):
                 steps.append({"op": "mutate_result", "ref": len(steps) - 1})
                 steps.append(copy.deepcopy(step))
         return {"prop": self.ID, "seed": seed, "tier": tier, "world": world, "env": env, "steps": steps_with_ids(steps), "meta": {"swarm": sw}}
+
+    def comparable(self, sess, i, step):
+        return True  # what is written for a value never depends on clock, zone or hash seed
 
     def pre_run(self, sess):
         sess.out_containers = {}
